@@ -1131,6 +1131,17 @@ def ext_attr(I, mod, name, node):
         return PBuiltin(name, lambda I, *a, **k: FStr(["<pformat>"]))
     if base == "logger" or base == "logging":
         return PBuiltin(name, lambda I, *a, **k: None)
+    if base == "copy" and name == "deepcopy":
+        def _deepcopy(I, x):
+            # a structure-preserving copy of the reachable object graph; the copies are fresh allocations
+            from .engine import _deep_copy_value
+
+            memo = {}
+            c = _deep_copy_value(x, memo)
+            for o in memo.values():
+                I.ctx.allocated.append(o)
+            return c
+        return PBuiltin("deepcopy", _deepcopy)
     h = I.ctx.ext_attr_hook(I, base, name)
     if h is not NotImplemented:
         return h
